@@ -118,6 +118,10 @@ def run_template_scope(name, kind, progs, scope, known, *, optimize):
                 br.violations.append({"what": f"{r['name']}: lemma refuted", "witness": r.get("witness", {"program": src})})
             elif r["status"] == "error":
                 br.error = f"{r['name']}: {r['detail']}"
+            elif r["status"] == "not-templated":
+                # program shape the template abstraction does not cover (no top-level reader per cell); the
+                # tick-simulation stand-in of the same scope still judges it
+                br.monitors["programs_without_template"] = br.monitors.get("programs_without_template", 0) + 1
             else:
                 br.undecided.append(f"{r['name']}: {r.get('detail', 'undecided')}")
         if len(br.samples) < 2 and recs:
